@@ -371,6 +371,9 @@ class ReadModifyWriteRequestPacket(SendUnitDataRequestPacket):
         if self.data_type == "DWORD":
             bit %= 32
 
+        if not 0 <= bit < self._mask_size * 8:
+            raise RequestError(f"Invalid bit {bit} for data type {self.data_type}")
+
         if value:
             self._or_mask |= 1 << bit
             self._and_mask |= 1 << bit
